@@ -87,6 +87,13 @@ def generate(seed, h, tier):
     fr = core.Rng(seed, ID, h, "faults")
     faults = {}
     cells = [list(grid()[i]) for i in idx]
+    if tier == "quick" and h == 0:
+        # fixed core of every quick run: the cells that lean on the documented workarounds (scenario rewrites for
+        # SLV / ALB / ECU, the NZL constant) with the resilient-food sets that trigger them, run in the middle of a
+        # long-lived process (never as its first job)
+        core_cells = [list(c) for c in grid() if c[0] in ("SLV", "ALB", "ECU", "NZL")
+                      and _GRID["presets"][c[1]].get("scenario") in ("seaweed", "all_resilient_foods", "all_resilient_foods_and_more_area")]
+        cells = cells[:2] + core_cells
     if idx and fr.chance(0.6):
         # faults hit extra "sacrificial" jobs put in front of the history, never a grid cell of this
         # history: every cell of the grid is judged (the thorough tier stays exhaustive), and every
